@@ -48,6 +48,8 @@ class SRange:
 def int_to_bytes(interp, x, length=1, byteorder="big", *, signed=False):
     c = sym.ctx()
     if is_sym(length):
+        if interp.test(length < 0):
+            interp.py_raise(ValueError, "length argument must be non-negative")
         length = c.choose_int(length, "to_bytes length")
     if not isinstance(length, int):
         interp.py_raise(TypeError, "length must be int")
